@@ -81,9 +81,12 @@ class Op(object):
                     raise Violation("C16", "prop_keep", "%s: result attrs %r != source attrs %r" % (
                         self.name, dict(r.attrs), p[1]))
                 w.count("c16:prop_keep_checked" + ("_nonempty" if p[1] else ""))
-                if self.axis_keep and not s.get("no_axis_keep"):
+                only = s.get("axis_keep_only")
+                if self.axis_keep and (not s.get("no_axis_keep") or only):
                     for ax in list.__iter__(r._axes):
                         nm = ax.__dict__.get("_name")
+                        if s.get("no_axis_keep") and nm not in only:
+                            continue
                         if nm in p[2] and V.attrs_key(ax.__dict__.get("_attrs", {})) != p[2][nm]:
                             raise Violation("C16", "axis_keep", "%s: axis %s attrs %r, source had %r" % (
                                 self.name, nm, dict(ax.attrs), p[2][nm]))
@@ -369,7 +372,10 @@ def _ix():
         idx, _ = _gen_index_tuple(w, rng, a, True)
         st = {"a": a_id, "idx": idx, "out": out(w), "via": rng.choice(["ix", "iloc", "take", "take_broadcast"])}
         if st["via"] == "take_broadcast":
-            st["no_axis_keep"] = True     # numpy-like fancy indexing merges the indexed axes into a new one
+            st["no_axis_keep"] = True     # numpy-like fancy indexing merges the indexed axes into a new one ...
+            if idx is not None and not any(e["k"] == "e" for e in idx):
+                # ... but the axes that are only sliced stay what they were, metadata included
+                st["axis_keep_only"] = [d for i, d in enumerate(a.dims) if i >= len(idx) or idx[i]["k"] in ("all", "sl")]
         return st
 
     def run(w, s):
@@ -538,7 +544,7 @@ def _cumul():
             return None
         a = w.arr(a_id)
         fn = rng.choice(["cumsum", "cumprod", "argmin", "argmax", "diff"])
-        st = {"a": a_id, "fn": fn, "axis": _gen_axis_arg(w, rng, a, allow_none=fn.startswith("arg"), allow_tuple=False),
+        st = {"a": a_id, "fn": fn, "axis": _gen_axis_arg(w, rng, a, allow_none=fn.startswith("arg"), allow_tuple=fn.startswith("cum")),
               "skipna": rng.random() < 0.3, "out": out(w)}
         if fn == "diff":
             st["scheme"] = rng.choice(["backward", "forward", "centered"])
@@ -550,7 +556,8 @@ def _cumul():
         a = w.arr(s["a"])
         if s["fn"] == "diff":
             return a.diff(axis=s["axis"], scheme=s["scheme"], keepaxis=s["keepaxis"], n=s["n"])
-        return getattr(a, s["fn"])(axis=s["axis"], skipna=s["skipna"])
+        ax = tuple(s["axis"]) if isinstance(s["axis"], list) else s["axis"]
+        return getattr(a, s["fn"])(axis=ax, skipna=s["skipna"])
     return gen, run
 
 
